@@ -16,10 +16,12 @@ import (
 // replayer builds one native test binary of the package under test with the
 // harness overlay and runs counterexamples / passing samples through it.
 type replayer struct {
-	pkgDir string
-	tmp    string
-	bin    string
-	built  bool
+	pkgDir  string
+	tmp     string
+	bin     string
+	built   bool
+	raceBin string
+	ovPath  string
 }
 
 func newReplayer(pkgDir string) *replayer { return &replayer{pkgDir: pkgDir} }
@@ -61,6 +63,7 @@ func (r *replayer) build() error {
 	if err := os.WriteFile(ovPath, ovj, 0o644); err != nil {
 		return err
 	}
+	r.ovPath = ovPath
 	r.bin = filepath.Join(tmp, "replay.test")
 	cmd := exec.Command("go", "test", "-c", "-tags", "verif", "-vet=off", "-overlay", ovPath, "-o", r.bin, "./"+r.pkgDir)
 	cmd.Dir = *repoDir
@@ -71,6 +74,38 @@ func (r *replayer) build() error {
 	}
 	r.built = true
 	return nil
+}
+
+// race runs the racer function (two or more goroutines exercising the
+// operations of a lock-discipline harness) under the race detector; ok means
+// the detector reported a data race.
+func (r *replayer) race(racer string) (bool, string) {
+	if racer == "" {
+		return false, "no racer registered for this harness"
+	}
+	if r.raceBin == "" {
+		bin := filepath.Join(r.tmp, "race.test")
+		cmd := exec.Command("go", "test", "-race", "-c", "-tags", "verif", "-vet=off", "-overlay", r.ovPath, "-o", bin, "./"+r.pkgDir)
+		cmd.Dir = *repoDir
+		cmd.Env = append(os.Environ(), "GOFLAGS=-mod=mod", "GOPROXY=off", "GOSUMDB=off", "GOTOOLCHAIN=local", "CGO_ENABLED=1")
+		out, err := cmd.CombinedOutput()
+		if err != nil {
+			return false, fmt.Sprintf("go test -race -c: %v %s", err, tail(string(out), 800))
+		}
+		r.raceBin = bin
+	}
+	cmd := exec.Command(r.raceBin, "-test.run", "^TestVerifRace$", "-test.count=1", "-test.timeout", "120s")
+	cmd.Dir = filepath.Join(*repoDir, r.pkgDir)
+	cmd.Env = append(os.Environ(), "VERIF_RACE="+racer)
+	var buf bytes.Buffer
+	cmd.Stdout = &buf
+	cmd.Stderr = &buf
+	_ = cmd.Run()
+	out := buf.String()
+	if strings.Contains(out, "DATA RACE") {
+		return true, "race detector: DATA RACE in " + racer + ": " + firstLines(out[strings.Index(out, "DATA RACE"):], 4)
+	}
+	return false, "race detector silent in " + racer + ": " + firstLines(out, 3)
 }
 
 func tail(s string, n int) string {
@@ -91,6 +126,7 @@ type replayFile struct {
 	Inputs   []interp.InputVal `json:"inputs"`
 	Vars     map[string]string `json:"vars,omitempty"`
 	Tier     string            `json:"tier"`
+	Racer    string            `json:"racer,omitempty"`
 }
 
 type nativeResult struct {
@@ -121,7 +157,7 @@ func (r *replayer) runBin(env []string, timeout time.Duration) (string, error) {
 func (r *replayer) replay(v *interp.Violation, path string) (bool, string) {
 	os.MkdirAll(filepath.Dir(path), 0o755)
 	rf := replayFile{Property: *prop, Harness: v.Harness, Kind: v.Kind, Label: v.Label, Msg: v.Msg, Site: v.Site,
-		Tags: v.Tags, Inputs: v.Inputs, Tier: *tier, Vars: tierVars(v.Harness)}
+		Tags: v.Tags, Inputs: v.Inputs, Tier: *tier, Vars: tierVars(v.Harness), Racer: racerOf[v.Harness]}
 	b, _ := json.MarshalIndent(rf, "", " ")
 	if err := os.WriteFile(path, b, 0o644); err != nil {
 		return false, err.Error()
@@ -130,6 +166,9 @@ func (r *replayer) replay(v *interp.Violation, path string) (bool, string) {
 }
 
 func (r *replayer) replayPath(path string, rf *replayFile) (bool, string) {
+	if rf.Kind == "lock" {
+		return r.race(rf.Racer)
+	}
 	out, err := r.runBin([]string{"VERIF_REPLAY=" + path}, 60*time.Second)
 	var nr nativeResult
 	got := false
@@ -261,6 +300,7 @@ func diffObs(a, b []interp.Observation) string {
 }
 
 var tierVarsByHarness = map[string]map[string]string{}
+var racerOf = map[string]string{}
 
 func tierVars(h string) map[string]string { return tierVarsByHarness[h] }
 
